@@ -423,6 +423,7 @@ def run(tier):
     from harness import probes
     probes.late_conversion_round_trip(R)
     probes.flatten_probe(R)
+    probes.stdlib_round_trip_probe(R, aspects=("round_trip", "json"))
     T1 = "univ * sopts * ty * value"
     bad, errs = core.run_coq_shards("C05_model", P.header() + HEADER_EXTRA, items,
                                     "(fun c : " + T1 + " => let '(u, o, t, v) := c in roundtrip_case u o 60 40 t v)",
